@@ -1087,7 +1087,7 @@ class ConditionalIdentityGaussianPDF(ConditionalGaussianPDF):
             ln_det_Sigma_xy = p_x.ln_det_Sigma + delta_ln_det
         else:
             # [R1, Dy, D] x [R1, Dy, D] = [R1, D, D]
-            LSigmaL = jnp.tile(self.Lambda[:, None], (1, p_x.R)).reshape(
+            LSigmaL = jnp.tile(self.Lambda[:, None], (1, p_x.R, 1, 1)).reshape(
                 (R, p_x.D, p_x.D)
             )
             delta_ln_det = jnp.linalg.slogdet(Lambda_x - LSigmaL)[1]
